@@ -129,14 +129,14 @@ def transform_cylindrical_to_spherical(rho_phi_z):
     rho, phi, z = rho_phi_z
     r = np.hypot(rho, z)
     theta = np.arctan2(rho, z)
-    return np.array([r, theta, phi % (2*np.pi)])
+    return np.array([r, theta, np.mod(phi, 2*np.pi)])
 
 
 def transform_spherical_to_cylindrical(r_theta_phi):
     r, theta, phi = r_theta_phi
     rho = r * np.sin(theta)
     z = r * np.cos(theta)
-    return np.array([rho, phi % (2*np.pi), z])
+    return np.array([rho, np.mod(phi, 2*np.pi), z])
 
 
 def keep_in_same_coordinates(coords): return np.array(coords)
